@@ -167,8 +167,9 @@ func (d *Dumper) ValueLit(in any, optFns ...ValueLitOptFn) string {
 		}
 		return fmt.Sprintf("&(%s)", d.ValueLit(rv.Elem(), append(optFns, SubValue(false))...))
 	case reflect.Struct:
-		buf := bytes.NewBufferString(d.ReflectTypeLit(tpe))
-		buf.WriteString(`{`)
+		// fields first: the type literal registers the import of the struct's package,
+		// which must not happen when the whole value ends up omitted
+		buf := bytes.NewBuffer(nil)
 
 		c := 0
 
@@ -202,9 +203,7 @@ func (d *Dumper) ValueLit(in any, optFns ...ValueLitOptFn) string {
 			return ""
 		}
 
-		buf.WriteString(`}`)
-
-		return buf.String()
+		return d.ReflectTypeLit(tpe) + "{" + buf.String() + "}"
 	case reflect.Map:
 		buf := bytes.NewBufferString(d.ReflectTypeLit(tpe))
 		buf.WriteString(`{`)
